@@ -178,7 +178,9 @@ def run_property(prop, tier, seed, jobs, wd, only=None, keep_logs=None, t0=None)
         replays = list(ex.map(do_replay, chosen))
     for (cfg, h), ok, info, path in replays:
         fl = by_h[(cfg, h)]
-        props = sorted(set(p for _, p in fl))
+        # the tagged property, and the property being checked (its suite lists this harness as
+        # one of the obligations it rests on, e.g. preservation of the cursor invariant)
+        props = sorted(set(p for _, p in fl) | {prop})
         if ok:
             confirmed += 1
             for p in props:
